@@ -253,8 +253,8 @@ def run_conv(rec, case):
 def plan(tier, seed):
     per = 8000 if tier == 'thorough' else 220
     shards = []
-    for pair in ('TT', 'AA', 'TA', 'AT', 'AH'):
-        for s in range(4 if pair != 'AH' else 2):
+    for pair in ('TT', 'AA', 'TA', 'AT', 'AH', 'TH'):
+        for s in range(4 if pair not in ('AH', 'TH') else 2):
             shards.append({'seed': seed, 'pair': pair, 'shard': s, 'n': per})
     return shards
 
